@@ -32,6 +32,8 @@ inductive Err where
   | unknownVariant
   | badValue
   | invalidLength
+  /-- not an error value of the code: a leaf visitor PANICKED (only the duration visitor can) -/
+  | panicked
   deriving Repr, DecidableEq
 
 inductive Leaf where
@@ -82,7 +84,7 @@ def U32_MAX : Nat := 2 ^ 32 - 1
 /-- humantime's units (`parse_unit`), as nanoseconds per unit -/
 def durationUnits : List (List Char × Nat) :=
   [ (c!"nanos", 1), (c!"nsec", 1), (c!"ns", 1),
-    (c!"usec", 1000), (c!"us", 1000),
+    (c!"usec", 1000), (c!"us", 1000), (['µ', 's'], 1000),
     (c!"millis", 1000000), (c!"msec", 1000000), (c!"ms", 1000000),
     (c!"seconds", 1000000000), (c!"second", 1000000000), (c!"secs", 1000000000),
     (c!"sec", 1000000000), (c!"s", 1000000000),
@@ -92,33 +94,105 @@ def durationUnits : List (List Char × Nat) :=
     (c!"hrs", 3600000000000), (c!"h", 3600000000000),
     (c!"days", 86400000000000), (c!"day", 86400000000000), (c!"d", 86400000000000),
     (c!"weeks", 604800000000000), (c!"week", 604800000000000), (c!"w", 604800000000000),
+    (c!"wk", 604800000000000), (c!"wks", 604800000000000),
     (c!"months", 2630016000000000), (c!"month", 2630016000000000), (c!"M", 2630016000000000),
     (c!"years", 31557600000000000), (c!"year", 31557600000000000), (c!"y", 31557600000000000) ]
 
 def isAsciiAlpha (c : Char) : Bool := ('a' ≤ c && c ≤ 'z') || ('A' ≤ c && c ≤ 'Z')
 
-/-- `humantime::parse_duration` restricted to ONE `<digits> <unit>` span (white space allowed
-before the number, between number and unit, and after the unit).  The unit is matched exactly
-(case-sensitive); the count of whole seconds (sub-second units: of nanoseconds) must fit `u64`.
-Every other text is rejected by the model; humantime accepts more (several spans) — those texts are
-outside the modelled forms and are not generated. -/
+inductive DurRes where
+  | ok (secs nanos : Nat)
+  | err
+  | panic
+  deriving Repr, DecidableEq
+
+/-- `true` = humantime as it is (2.4.0): `add_current` carries nanoseconds into seconds only when
+they EXCEED 10^9, so a sum of exactly 10^9 ns reaches `Duration::new(sec, 1_000_000_000)`, whose own
+carry overflows — and PANICS — when `sec = u64::MAX` (finding
+C14/refresh-rate-duration-overflow-panics).  `false` = after a repair that turns this into an
+error. -/
+def humantimeCarryPanics : Bool := true
+
+/-- `add_current(sec, nsec, out)` followed by `Duration::new` -/
+def durAdd (sec nsec : Nat) (acc : Nat × Nat) : DurRes :=
+  let ns := acc.2 + nsec
+  if ns > U64_MAX then .err else
+  let sec' := if ns > 1000000000 then sec + ns / 1000000000 else sec
+  let ns' := if ns > 1000000000 then ns % 1000000000 else ns
+  if sec' > U64_MAX then .err else
+  let total := acc.1 + sec'
+  if total > U64_MAX then .err
+  else if ns' = 1000000000 then
+    (if total + 1 > U64_MAX then (if humantimeCarryPanics then .panic else .err) else .ok (total + 1) 0)
+  else .ok total ns'
+
+/-- `parse_unit`: the unit word (exact, case-sensitive), the checked multiplication, the sum -/
+def durUnit (n : Nat) (unit : List Char) (acc : Nat × Nat) : DurRes :=
+  match durationUnits.find? (fun e => e.1 == unit) with
+  | none => .err
+  | some e =>
+    if e.2 < 1000000000 then
+      (if n * e.2 ≤ U64_MAX then durAdd 0 (n * e.2) acc else .err)
+    else
+      (if n * (e.2 / 1000000000) ≤ U64_MAX then durAdd (n * (e.2 / 1000000000)) 0 acc else .err)
+
+def isUnitChar (c : Char) : Bool := isAsciiAlpha c || c == 'µ'
+
+mutual
+/-- inside a number: digits accumulate (checked), white space is skipped, a letter starts the unit;
+the end of the text means "no unit" — an error.  A fractional part (`1.5h`) is outside the model
+(rejected here; humantime 2.4 accepts it). -/
+def durNum : Nat → Nat → List Char → Nat × Nat → DurRes
+  | 0, _, _, _ => .err
+  | fuel + 1, n, s, acc =>
+    match s with
+    | [] => .err
+    | c :: r =>
+      if isAsciiDigit c then
+        (if n * 10 + digitVal c > U64_MAX then .err else durNum fuel (n * 10 + digitVal c) r acc)
+      else if isWhitespace c then durNum fuel n r acc
+      else if isUnitChar c then durWord fuel n [c] r acc
+      else .err
+/-- inside a unit word: letters accumulate; a digit ends the span and starts the next number,
+white space ends the span, the end of the text ends the span and the text -/
+def durWord : Nat → Nat → List Char → List Char → Nat × Nat → DurRes
+  | 0, _, _, _, _ => .err
+  | fuel + 1, n, urev, s, acc =>
+    match s with
+    | [] => durUnit n urev.reverse acc
+    | c :: r =>
+      if isUnitChar c then durWord fuel n (c :: urev) r acc
+      else if isAsciiDigit c then
+        (match durUnit n urev.reverse acc with
+         | .ok a b => durNum fuel (digitVal c) r (a, b)
+         | o => o)
+      else if isWhitespace c then
+        (match durUnit n urev.reverse acc with
+         | .ok a b => durFirst fuel r (a, b)
+         | o => o)
+      else .err
+/-- `parse_first_char` between spans: white space, then a digit or the end -/
+def durFirst : Nat → List Char → Nat × Nat → DurRes
+  | 0, _, _ => .err
+  | fuel + 1, s, acc =>
+    match s with
+    | [] => .ok acc.1 acc.2
+    | c :: r =>
+      if isWhitespace c then durFirst fuel r acc
+      else if isAsciiDigit c then durNum fuel (digitVal c) r acc
+      else .err
+end
+
+/-- `humantime::parse_duration` (2.4.0) for texts without fractional parts: any number of
+`<digits> <unit>` spans.  An empty text is an error (`Error::Empty`). -/
+def parseDurationFull (s : List Char) : DurRes :=
+  if s.all isWhitespace then .err else durFirst (s.length + 2) s (0, 0)
+
+/-- the accepted durations, in nanoseconds -/
 def parseDuration (s : List Char) : Option Nat :=
-  let s := s.dropWhile isWhitespace
-  let ds := s.takeWhile isAsciiDigit
-  let rest := (s.dropWhile isAsciiDigit).dropWhile isWhitespace
-  let u := rest.takeWhile isAsciiAlpha
-  let tail := rest.dropWhile isAsciiAlpha
-  if ds.isEmpty then none
-  else if !(tail.all isWhitespace) then none
-  else if digitsVal ds > U64_MAX then none
-  else match durationUnits.find? (fun e => e.1 == u) with
-    | none => none
-    | some e =>
-      let n := digitsVal ds
-      if e.2 < 1000000000 then
-        if n * e.2 ≤ U64_MAX then some (n * e.2) else none
-      else
-        if n * (e.2 / 1000000000) ≤ U64_MAX then some (n * e.2) else none
+  match parseDurationFull s with
+  | .ok a b => some (a * 1000000000 + b)
+  | _ => none
 
 def interpLeaf : Leaf → Value → Except Err Typed
   | .str, .str s => .ok (.str s)
@@ -138,9 +212,10 @@ def interpLeaf : Leaf → Value → Except Err Typed
     | .ok (u, n) => .ok (.interval u n)
     | .error _ => .error .badValue
   | .duration, .str s =>
-    match parseDuration s with
-    | some n => .ok (.duration n)
-    | none => .error .badValue
+    match parseDurationFull s with
+    | .ok a b => .ok (.duration (a * 1000000000 + b))
+    | .err => .error .badValue
+    | .panic => .error .panicked
   | .target, .str s =>
     if s = c!"stdout" then .ok (.target false)
     else if s = c!"stderr" then .ok (.target true)
